@@ -454,6 +454,9 @@ def _list(ex, st, args, kwargs):
             s.pytype = "list"
             yield st, s
             return
+        if isinstance(a, Opaque):
+            yield st, Opaque("PyList")  # an abstract collection copied into a list: contents unknown
+            return
         raise U(f"list() of {a!r}")
     yield st, st.alloc(PList(items))
 
@@ -478,12 +481,18 @@ def _dict(ex, st, args, kwargs):
         yield st, st.alloc(PDict(dict(kwargs)))
         return
     a = st.deref(args[0])
+    if isinstance(a, SV) and isinstance(a.sort, tuple) and a.sort[0] == "opt":
+        for st1, w in ex.narrow(st, a):
+            yield from _dict(ex, st1, [w] + list(args[1:]), kwargs)
+        return
     if isinstance(a, PDict):
         yield st, st.alloc(PDict({**a.items, **kwargs}))
     elif isinstance(a, SDict) and not kwargs:
         c = a.clone()
         c.frozen = False
         yield st, st.alloc(c)
+    elif isinstance(a, Opaque) and (a.kind, "dict") in ex.db.opaque_ops:
+        yield from ex.db.opaque_ops[(a.kind, "dict")](ex, st, a)
     elif isinstance(a, GenThunk):
         raise U("dict(genexpr)")
     elif a is None or natural_sort(a) in ("int", "bool", "real"):
@@ -876,6 +885,14 @@ def _isfinite(ex, st, args, kwargs):
         yield st, True  # symbolic floats are modelled as (finite) reals
 
 
+def _dc_replace(ex, st, args, kwargs):
+    o = st.deref(args[0])
+    if isinstance(o, Opaque):
+        yield st, Opaque(o.kind)  # a new abstract instance of the same kind (fields not tracked)
+        return
+    raise U(f"dataclasses.replace of {o!r}")
+
+
 def _object(ex, st, args, kwargs):
     yield st, Opaque("object")
 
@@ -883,7 +900,7 @@ def _object(ex, st, args, kwargs):
 FUNCS = {
     "math.isfinite": _isfinite, "object": _object,
     "copy.deepcopy": _deepcopy, "copy.copy": _deepcopy,
-    "dataclasses.fields": _dc_fields,
+    "dataclasses.fields": _dc_fields, "dataclasses.replace": _dc_replace,
     "round": _round,
     "operator.eq": _operator(ast.Eq), "operator.ne": _operator(ast.NotEq), "operator.lt": _operator(ast.Lt),
     "operator.le": _operator(ast.LtE), "operator.gt": _operator(ast.Gt), "operator.ge": _operator(ast.GtE),
@@ -1080,6 +1097,18 @@ def _m_join(ex, st, s, args, kwargs):
     items = bm.iter_values(ex, st, it)
     if items is None and isinstance(it, SSeq) and it.sort == "str":
         f = ex.uf("py_join_seq", z3.StringSort(), z3.IntSort(), it.arr.sort(), z3.StringSort())
+        yield st, SV("str", f(sstr(s), it.n, it.arr))
+        return
+    if items is None and isinstance(it, SSeq) and it.sort == ("opt", "str"):
+        # some element may be None: str.join raises TypeError on it
+        st2 = st.fork()
+        jn = z3.Int(fresh_name("jnone"))
+        st2.assume(z3.And(jn >= 0, jn < it.n, z3sort(("opt", "str")).is_none(it.arr[jn])))
+        if ex.feasible(st2.pc, deep=True):
+            yield ex.raise_(st2, "TypeError")
+        kn = z3.Int(fresh_name("k"))
+        st.assume(z3.ForAll([kn], z3.Implies(z3.And(kn >= 0, kn < it.n), z3.Not(z3sort(("opt", "str")).is_none(it.arr[kn])))))
+        f = ex.uf("py_join_optseq", z3.StringSort(), z3.IntSort(), it.arr.sort(), z3.StringSort())
         yield st, SV("str", f(sstr(s), it.n, it.arr))
         return
     if items is None:
@@ -1580,6 +1609,54 @@ def comprehension_thunk(ex, st, thunk: GenThunk, kind):
         yield st1, v
 
 
+def _abstract_comprehension(ex, st, node, kind, g, it):
+    """Comprehension over a collection of unknown length: the element expression is evaluated once on an
+    arbitrary element (every exception any iteration can raise is raised on that path); the result is an
+    abstract list.  Only for list/generator comprehensions without conditions."""
+    if kind not in ("list", "gen") or g.ifs:
+        raise U(f"comprehension over symbolic iterable {it!r}")
+    d = st.deref(it)
+    if isinstance(d, SV) and isinstance(d.sort, tuple) and d.sort[0] == "opt":
+        for st1, w in ex.narrow(st, d):
+            if w is None:
+                yield ex.raise_(st1, "TypeError")
+            else:
+                yield from _abstract_comprehension(ex, st1, node, kind, g, w)
+        return
+    seqs = [(st, d)]
+    if isinstance(d, Opaque) and (d.kind, "iter") in ex.db.opaque_ops:
+        seqs = list(ex.db.opaque_ops[(d.kind, "iter")](ex, st, d))
+    elif isinstance(d, Opaque):
+        from .contracts import pure_result
+
+        seqs = [(st, pure_result(ex, st, f"iter_{d.kind}", "seq[u:Any]", [d]))]
+    for st0, sq in seqs:
+        if isinstance(sq, Exc):
+            yield st0, sq
+            continue
+        if not isinstance(sq, SSeq):
+            raise U(f"comprehension over symbolic iterable {sq!r}")
+        frame = st0.frames[-1]
+        j = z3.Int(fresh_name("j"))
+        st_e = st0.fork()
+        st_e.assume(z3.And(j >= 0, j < sq.n))
+        kinds = set()
+        if ex.feasible(st_e.pc):
+            for st1, r in _bind_and_eval(ex, st_e, frame, g, node.elt, sq.at(j)):
+                if isinstance(r, Exc):
+                    yield st1, r
+                else:
+                    rv = st1.deref(r)
+                    kinds.add("none" if rv is None else (natural_sort(rv) if natural_sort(rv) in ("str", ("opt", "str")) else "other"))
+        # the result: a list of the same length whose elements are arbitrary values of the kinds seen
+        if kinds and kinds <= {"str"}:
+            yield st0, SSeq("str", sq.n, z3.Array(fresh_name("comp"), z3.IntSort(), z3.StringSort()))
+        elif kinds and kinds <= {"str", "none", ("opt", "str")}:
+            yield st0, SSeq(("opt", "str"), sq.n, z3.Array(fresh_name("comp"), z3.IntSort(), z3sort(("opt", "str"))))
+        else:
+            yield st0, Opaque("PyList")
+
+
 def comprehension(ex, st, node, kind):
     if len(node.generators) != 1:
         raise U("nested comprehension")
@@ -1590,7 +1667,8 @@ def comprehension(ex, st, node, kind):
             continue
         items = bm.iter_values(ex, st0, it)
         if items is None:
-            raise U(f"comprehension over symbolic iterable {it!r}")
+            yield from _abstract_comprehension(ex, st0, node, kind, g, it)
+            continue
         frame = st0.frames[-1]
         elt = node.key if kind == "dict" else node.elt
 
